@@ -46,7 +46,7 @@ var kinds = []failKind{
 
 func maxN(t string) int {
 	if t == ev.Thorough {
-		return 20
+		return 24
 	}
 	return 8
 }
@@ -58,14 +58,14 @@ func gridSize(t string) int {
 
 func randomCases(t string) int {
 	if t == ev.Thorough {
-		return 510
+		return 1500
 	}
 	return 60
 }
 
 func levels(t string) []int {
 	if t == ev.Thorough {
-		return []int{1, 2, 3, 8, 16}
+		return []int{1, 2, 3, 4, 8, 16}
 	}
 	return []int{1, 2, 3, 8}
 }
@@ -78,10 +78,10 @@ func init() {
 		Batches: func(t string) int {
 			return 16
 		},
-		Rule: "grid cases = every (block length n, failing position p, failure kind) with n<=8 (thorough 20), kinds none / retryable once / retryable RetryCount times / retryable forever / retryable RetryCount+1 times / non-retryable (3 error codes) / retryable then non-retryable; random cases = blocks with 0..3 failing transactions. Every case is executed by real service transitions at ConcurrencyLevel 1 and at 2,3,8 (thorough +16) x 3 delay profiles (failing handler returns early / late / random relative to its neighbours), lock declarations world-write / shared accounts / disjoint accounts / none. Oracle: reported success => receipts == n, every transaction's handler was invoked, its LAST invocation returned a receipt and exactly that receipt sits at slot i (to/stepUsed identify i, cumulative steps are the prefix sums); a last invocation that returned an error (non-retryable, or retryable with the executor giving up) with reported success is a drop; reported failure => Result()==nil. Process panics are caught by the child isolation. Non-trivial = distinct (n, positions, kinds, level, lock mode, delay profile) with >=1 failing handler invocation.",
+		Rule: "grid cases = every (block length n, failing position p, failure kind) with n<=8 (thorough 24), kinds none / retryable once / retryable RetryCount times / retryable forever / retryable RetryCount+1 times / non-retryable (3 error codes) / retryable then non-retryable; random cases = blocks with 0..3 failing transactions. Every case is executed by real service transitions at ConcurrencyLevel 1 and at 2,3,8 (thorough +4,16) x 3 delay profiles (failing handler returns early / late / random relative to its neighbours), lock declarations world-write / shared accounts / disjoint accounts / none. Oracle: reported success => receipts == n, every transaction's handler was invoked, its LAST invocation returned a receipt and exactly that receipt sits at slot i (to/stepUsed identify i, cumulative steps are the prefix sums); a last invocation that returned an error (non-retryable, or retryable with the executor giving up) with reported success is a drop; reported failure => Result()==nil. Process panics are caught by the child isolation. Non-trivial = distinct (n, positions, kinds, level, lock mode, delay profile) with >=1 failing handler invocation.",
 		MinNonTrivial: func(t string) int {
 			if t == ev.Thorough {
-				return 15000
+				return 30000
 			}
 			return 1500
 		},
